@@ -656,11 +656,11 @@ fn parse_literal(p: &mut Parser) -> Result<(Vec<u8>, usize, Position), ErrorSet>
 
 /// Parse a type expression, left-associative for both + and *
 fn parse_type(p: &mut Parser) -> Result<Option<Type>, ErrorSet> {
-    let mut lhs = parse_type_atom(p)?;
+    let mut lhs = parse_type_postfix(p)?;
     loop {
         if p.peek() == Some(&Token::Plus) {
             p.advance();
-            let rhs = parse_type_atom(p)?;
+            let rhs = parse_type_postfix(p)?;
             lhs = lhs
                 .zip(rhs)
                 .map(|(l, r)| Type::Sum(Box::new(l), Box::new(r)));
@@ -668,7 +668,7 @@ fn parse_type(p: &mut Parser) -> Result<Option<Type>, ErrorSet> {
         }
         if p.peek() == Some(&Token::Star) {
             p.advance();
-            let rhs = parse_type_atom(p)?;
+            let rhs = parse_type_postfix(p)?;
             lhs = lhs
                 .zip(rhs)
                 .map(|(l, r)| Type::Product(Box::new(l), Box::new(r)));
@@ -677,6 +677,16 @@ fn parse_type(p: &mut Parser) -> Result<Option<Type>, ErrorSet> {
         break;
     }
     Ok(lhs)
+}
+
+/// Parse a type atom followed by any number of `?`: `A?` is the option type `1 + A`,
+/// which is how complete types are displayed
+fn parse_type_postfix(p: &mut Parser) -> Result<Option<Type>, ErrorSet> {
+    let mut ty = parse_type_atom(p)?;
+    while p.eat(&Token::Question) {
+        ty = ty.map(|inner| Type::Sum(Box::new(Type::One), Box::new(inner)));
+    }
+    Ok(ty)
 }
 
 /// Parse a type atom
